@@ -155,7 +155,7 @@ def build_facts(config, thash=None, dhash=None):
     return out
 
 
-def _prune_cache(keep=None, max_files=40):
+def _prune_cache(keep=None, max_files=400):
     try:
         fs = [os.path.join(CACHE, f) for f in os.listdir(CACHE) if f.startswith("facts-")]
         fs.sort(key=lambda p: os.path.getmtime(p))
@@ -218,9 +218,12 @@ def plain_check(name, thash=None):
     os.makedirs(CACHE, exist_ok=True)
     marker = os.path.join(CACHE, "build-%s-%s.json" % (name, key))
     if os.path.exists(marker):
-        with open(marker) as fh:
-            d = json.load(fh)
-        return d["ok"], d["msg"]
+        try:
+            with open(marker) as fh:
+                d = json.load(fh)
+            return d["ok"], d["msg"]
+        except (ValueError, KeyError, OSError):
+            pass  # written concurrently by another process: recompute
     tgt = scratch_dir("bld-" + name)
     try:
         cmd = ["cargo"] + (["+nightly"] if tc == "nightly" else []) + ["check", "--offline", "--lib"] + feats
@@ -229,10 +232,15 @@ def plain_check(name, thash=None):
         msg = "" if ok else p.stderr[-3000:]
     finally:
         shutil.rmtree(tgt, ignore_errors=True)
-    with open(marker, "w") as fh:
+    tmpm = marker + ".%d.tmp" % os.getpid()
+    with open(tmpm, "w") as fh:
         json.dump({"ok": ok, "msg": msg, "cmd": " ".join(cmd)}, fh)
-    for f in sorted([x for x in os.listdir(CACHE) if x.startswith("build-")], key=lambda x: os.path.getmtime(os.path.join(CACHE, x)))[:-60]:
-        os.remove(os.path.join(CACHE, f))
+    os.replace(tmpm, marker)
+    try:
+        for f in sorted([x for x in os.listdir(CACHE) if x.startswith("build-") and x.endswith(".json")], key=lambda x: os.path.getmtime(os.path.join(CACHE, x)))[:-200]:
+            os.remove(os.path.join(CACHE, f))
+    except OSError:
+        pass
     return ok, msg
 
 
